@@ -64,6 +64,9 @@ var structuredHosts = []string{
 	"a.1.1.1", "1.1.1.a", "1.1.1.1.b", "*.b", "*.a.b", "a.*", "*.*",
 	"k", "K", "\u212a", "k.b", "K.b", "\u212a.b", "\u212a.B", "s", "S", "\u017f", "\u00e9", "\u00c9", "\u00e9.b", "\u00c9.b", "\u00c9.B",
 	"\xc3a", "\xc3A", "\xc3a.b", "\xc3A.B", "a\xc3", "A\xc3", "\xff", "a-b.b", "xn--a.b", "a_b",
+	// both ends of the ASCII letter ranges that case folding maps onto each other, alone and as the only upper-case
+	// letter of a name, and the four code points next to the ranges ('@' '[' '`' '{'), which folding must leave alone
+	"z", "Z", "z.b", "Z.b", "z.B", "Z.B", "b.z", "b.Z", "zz.b", "zZ.b", "Zz.b", "@.b", "`.b", "{.b", "[.b",
 }
 
 var structuredPatterns = []string{
@@ -74,6 +77,7 @@ var structuredPatterns = []string{
 	"1", "11", "1a", "a1", "1.1", "1.1.1.1", "*.1.1.1", "1.1.1.*", "*.*.*.1", "1.1.1.1.", "1.1.1.1.b", "*.1.1.1.b",
 	"::1", "[::1]", "[1.1.1.1]", "::a", "[a]", "[", "]", ":", "[]", "::", "[*]", "*:", "1:1",
 	"a*", "*a", "a*.b", "*a.b", "**", "*.a*", "a*a",
+	"z", "Z", "z.b", "Z.b", "z.B", "b.z", "b.Z", "*.z", "*.Z", "zz.b", "zZ.b", "*.zz.b", "*.zZ.b", "@.b", "`.b", "{.b", "[.b",
 }
 
 // p10 is the sub-alphabet of patterns used in pairs and as CN in cross products.
